@@ -100,6 +100,9 @@ fn c07_for(cx: &Ctx, si: usize) -> Vec<Finding> {
         _ => return out,
     };
     let op = t.op_name();
+    if matches!(t, Topo::Take(0, _)) {
+        return out; // the statement is about take(n >= 1)
+    }
     let Some(sub) = the_sub(cx, si) else { return out };
     let Some(inst) = only_inst(cx, child_pup, si) else { return out };
     // walk the history in order, maintaining U and the data the probe has received
